@@ -387,6 +387,38 @@ fn check_case(case: &Case, l: &mut Local) {
     };
     let pipe_milp = crate::core::catch(|| pipe(false)).unwrap_or_else(|p| Err(format!("panic: {p}")));
     let pipe_auto = crate::core::catch(|| pipe(true)).unwrap_or_else(|p| Err(format!("panic: {p}")));
+    // continuous models also go through the real-solver pipe (Clarabel) and the
+    // standard form > tableau > step-by-step simplex pipes
+    let continuous = lm_t.domain().values().all(|v| matches!(v.get_type(), rooc::VariableType::Real(_, _) | rooc::VariableType::NonNegativeReal(_, _))) && !lm_t.domain().is_empty();
+    let pipe_real = |simplex: bool| -> Result<f64, String> {
+        let mut pipes: Vec<Box<dyn rooc::pipe::Pipeable>> = vec![Box::new(CompilerPipe::new()), Box::new(PreModelPipe::new()), Box::new(ModelPipe::new()), Box::new(LinearModelPipe::new())];
+        if simplex {
+            pipes.push(Box::new(rooc::pipe::StandardLinearModelPipe::new()));
+            pipes.push(Box::new(rooc::pipe::TableauPipe::new()));
+            pipes.push(Box::new(rooc::pipe::StepByStepSimplexPipe::new()));
+        } else {
+            pipes.push(Box::new(rooc::pipe::RealSolver::new()));
+        }
+        let runner = PipeRunner::new(pipes);
+        let ctx = PipeContext::new(vec![], &fns);
+        match runner.run(PipeableData::String(text_inline.clone()), &ctx) {
+            Ok(stages) => {
+                let last = stages.last().cloned().unwrap();
+                if simplex {
+                    last.to_optimal_tableau_with_steps().map(|t| t.result().as_lp_solution().value()).map_err(|e| format!("{e}"))
+                } else {
+                    last.to_real_solution().map(|s| s.value()).map_err(|e| format!("{e}"))
+                }
+            }
+            Err((e, _)) => Err(format!("{e}")),
+        }
+    };
+    let (pipe_clarabel, pipe_simplex) = if continuous && m.sense != Sense::Satisfy {
+        l.count("continuous_models_through_real_pipes");
+        (Some(crate::core::catch(|| pipe_real(false)).unwrap_or_else(|p| Err(format!("panic: {p}")))), Some(crate::core::catch(|| pipe_real(true)).unwrap_or_else(|p| Err(format!("panic: {p}")))))
+    } else {
+        (None, None)
+    };
     let b0 = build(m, 0, k, false, true);
     let built = crate::core::catch(|| b0.builder.clone().solve_with(Auto).map_err(|e| format!("{e}"))).unwrap_or_else(|p| Err(format!("panic: {p}")));
     let values: Vec<(&str, Result<f64, String>)> = vec![
@@ -396,6 +428,13 @@ fn check_case(case: &Case, l: &mut Local) {
         ("pipe-auto", pipe_auto.as_ref().map(|s| s.1.value()).map_err(|e| e.clone())),
         ("builder", built.as_ref().map(|s| s.value()).map_err(|e| e.clone())),
     ];
+    let mut values = values;
+    if let Some(v) = pipe_clarabel {
+        values.push(("pipe-real-solver", v));
+    }
+    if let Some(v) = pipe_simplex {
+        values.push(("pipe-step-by-step-simplex", v));
+    }
     let reference = &values[0].1;
     for (door, v) in &values[1..] {
         l.count("verdicts_compared");
@@ -407,7 +446,9 @@ fn check_case(case: &Case, l: &mut Local) {
             }
             (Err(a), Err(b)) => {
                 // the message of the same verdict
-                if a != b && !(a.contains("nfeasible") && b.contains("nfeasible")) {
+                // the same verdict is worded differently by different doors
+                let class = |e: &str| if e.contains("nfeasible") || e.contains("nfesible") { "infeasible".to_string() } else if e.contains("nbounded") { "unbounded".to_string() } else { e.to_string() };
+                if class(a) != class(b) {
                     l.violation(sig("doors-disagree-on-error"), format!("auto_solver: {a}, {door}: {b}"), case_json(format!("{door}")));
                 }
             }
@@ -612,7 +653,7 @@ pub fn run(mut run: Run) -> ! {
     run.case_timeout_s = 60.0;
     let quick = run.quick();
     let depth = if quick { 1 } else { 2 };
-    run.rule = "generator-AST models (objective family and constraint family of C02/C01 over bounded declarations, objectives over three variables with different ranges, every row named) are expressed through: the fluent builder via operator overloads and helper functions (three operand spellings: Expr op Expr only; the most specific overload per operand pair over i32/f64 literals, Var handles, bool and helper functions over Var items; f64-only literals with Expr op &Expr) with EVERY call order (objective at each of the k+1 positions, every split of the constraints between with and with_all, satisfy explicit or defaulted, with and without two declared-but-unused variables), source text with inline constants, source text with the constants supplied through the API, PipeRunner presets (Compiler>PreModel>Model>LinearModel>MILP and >Auto), RoocSolver one-shot, plus compiled-in macro models that use every rule of constraint! (<=, >=, ==, <, >, ->, <->, bare logic; labelled and unlabelled), expr! with -> and <->, and every scalar and array declaration form of vars!; linear models are compared row for row (modulo unused builder variables), verdicts and optimal values across doors, pipe stage outputs with direct calls, and values read back through handles, names and eval with the reference semantics; distinct = source texts; non-trivial = compiles".into();
+    run.rule = "generator-AST models (objective family and constraint family of C02/C01 over bounded declarations, objectives over three variables with different ranges, every row named) are expressed through: the fluent builder via operator overloads and helper functions (three operand spellings: Expr op Expr only; the most specific overload per operand pair over i32/f64 literals, Var handles, bool and helper functions over Var items; f64-only literals with Expr op &Expr) with EVERY call order (objective at each of the k+1 positions, every split of the constraints between with and with_all, satisfy explicit or defaulted, with and without two declared-but-unused variables), source text with inline constants, source text with the constants supplied through the API, PipeRunner chains (Compiler>PreModel>Model>LinearModel>MILP and >Auto; for continuous models also >RealSolver and >StandardLinearModel>Tableau>StepByStepSimplex), RoocSolver one-shot, plus compiled-in macro models that use every rule of constraint! (<=, >=, ==, <, >, ->, <->, bare logic; labelled and unlabelled), expr! with -> and <->, and every scalar and array declaration form of vars!; linear models are compared row for row (modulo unused builder variables), verdicts and optimal values across doors, pipe stage outputs with direct calls, and values read back through handles, names and eval with the reference semantics; distinct = source texts; non-trivial = compiles".into();
     run.assume("identical expression trees must give identical linear models; the builder keeps unused variables, which are projected away; tolerance 1e-6 on optimal values and read-back");
     // the quick tier uses the full declaration / constant menus at context depth 1
     let n2 = c02::family_size_pub(depth, false);
